@@ -328,8 +328,40 @@ Definition decode (l : list N) : option cfg :=
   | _ => None
   end.
 
+(* ---- huge buffers: one read / write call with a buffer of m * 2^32 + k bytes
+   case   = [drv; dir; m; k; n_out]   (1 <= m <= 2, k <= 65536, n_out <= 65536)
+   dir 0: the child does not read its stdin; the parent makes ONE write call with a
+          buffer of that length: the empty pipe takes min(request, capacity) bytes
+   dir 1: the child writes n_out >= 1 pattern bytes and exits; after the wait the
+          parent makes ONE read call with a Vec of that capacity, then a small one
+   result = [0; n; byte sum; bytes ok; second read = end of file; exit code] *)
+Definition run_huge (drv dir m k n_out : N) : list N :=
+  let size := m * 4294967296 + k in
+  let req := request_len (drv =? 0) size in
+  if dir =? 0 then
+    [0; write_accepts (pipe_new CAP) req; 0; 1; 1; 0]
+  else
+    let p := pipe_close_w (pipe_with_q (pipe_new CAP) (gen POut 0 (nn n_out))) in
+    let n := read_returns p req in
+    match pipe_read p (nn (N.min req (NN CAP))) with
+    | (p', ROk bs) =>
+      let c := absorb PIn POut bs (cons_init PIn POut 0) in
+      let eof := match pipe_read p' 16 with (_, ROk []) => true | _ => false end in
+      if NN (length bs) =? n
+      then [0; n; k_sum c mod 4294967296; b2n (k_ok2 c); b2n eof; 0]
+      else [2; 9]
+    | (_, RBlock) => [2; 8]
+    end.
+
 Definition run_c20 (l : list N) : list N :=
-  match decode l with
-  | Some g => encode g (simulate g)
-  | None => BAD_CASE
+  match l with
+  | [drv; dir; m; k; n_out] =>
+    if (drv <=? 1) && (dir <=? 1) && (1 <=? m) && (m <=? 2) && (k <=? 65536)
+       && (n_out <=? 65536) && ((dir =? 0) || (1 <=? n_out))
+    then run_huge drv dir m k n_out else BAD_CASE
+  | _ =>
+    match decode l with
+    | Some g => encode g (simulate g)
+    | None => BAD_CASE
+    end
   end.
